@@ -15,6 +15,7 @@ class TimePattern(i_lib.TimePattern):
         if hours and minutes:
             self._init_hour_set(hours)
             self._init_minute_set(minutes)
+        self._alternatives = [(self._hour_set, self._minute_set)]
 
     def __repr__(self):
         return self._repr
@@ -64,11 +65,13 @@ class TimePattern(i_lib.TimePattern):
         return 0 <= int_minutes < 60
 
     def union(self, other):
-        self._hour_set.update(other._hour_set)
-        self._minute_set.update(other._minute_set)
+        # Keep the alternatives apart: merging the hour sets and the minute
+        # sets would also match every cross combination of them.
+        self._alternatives.extend(other._alternatives)
 
     def match(self, hours, minutes):
-        return hours in self._hour_set and minutes in self._minute_set
+        return any(hours in hour_set and minutes in minute_set
+                   for hour_set, minute_set in self._alternatives)
 
     def _init_hour_set(self, pattern):
         if pattern == '*':
